@@ -28,7 +28,7 @@ EXPLANATION = ('Static path/dominance/who-may-call rules over the CFG facts of t
                'Each is a necessary condition of memory safety / bounded work for every accepted font and text; absence of '
                'out-of-bounds access in float-derived collision indexing and the numeric work bound are NOT decided.')
 FLOORS = {'VMSTACK': 60, 'STACKMODEL': 30, 'PARAMSZ': 55, 'DIVGUARD': 1, 'NOSIGNEDOVF': 50, 'SLOTREF': 20,
-          'USERATTR': 3, 'GROWTH': 9, 'CONST': 7, 'RECURSION': 5, 'LOOPLIMIT': 4, 'CMAPBOUND': 4, 'ADVIDX': 2, 'FREEDSLOT': 3, 'OWNLOCAL': 12}
+          'USERATTR': 3, 'GROWTH': 9, 'CONST': 7, 'RECURSION': 5, 'LOOPLIMIT': 4, 'CMAPBOUND': 4, 'ADVIDX': 2, 'FREEDSLOT': 3, 'OWNLOCAL': 12, 'DERIVED': 1}
 
 
 # ------------------------------------------------------------------------------------------ SLOTREF
@@ -612,6 +612,51 @@ def looplimit(run, fx):
         run.violated('LOOPLIMIT', 'm_numCollRuns 3 bits', rp.where(), 'm_numCollRuns is no longer masked to 3 bits: %s' % [rp.render(e) for e in st])
 
 
+def derived(run, fx, rule='DERIVED'):
+    """a member pointer computed from a buffer (`_data = f(_code)`) is stale once the buffer is handed to realloc, which may move it: after
+    every `B = realloc(B, ..)` of a member buffer, each member that was derived from B before is derived again on every path to the
+    function's exit.  (Machine::Code packs its operand bytes behind the instructions and shrinks the block: the operands of every
+    push / BITSET are read through _data.)"""
+    from .util import reaches_avoiding
+    n = 0
+    for fn in fx.all_fns():
+        if not fn.file.startswith('src/') or fn.f.get('implicit') or not fn.f.get('cls'):
+            continue
+        stores = [e for _, e in fn.elements() if e['k'] == 'BinaryOperator' and e['op'] == '=' and fn.strip(e['c'][0])['k'] == 'MemberExpr' and fn.render(fn.N(fn.strip(e['c'][0])['c'][0])) == 'this']
+        rs = [e for e in stores if any((x.get('fq') or '') == 'realloc' for x in fn.walk(e['c'][1]))]
+        for r in rs:
+            B = fn.strip(r['c'][0])['d']
+            # locals derived from B (const locals are looked through by render(resolve=True))
+            for d in stores:
+                D = fn.strip(d['c'][0])['d']
+                if D == B or d is r:
+                    continue
+                txt = fn.render(fn.N(d['c'][1]), resolve=True)
+                if ('this->' + B.split('::')[-1]) not in txt:
+                    continue
+                if not reaches_avoiding(fn, d, r, avoid=()):
+                    continue                  # derived after the realloc (or unrelated path): fine
+                n += 1
+                again = [x for x in stores if fn.strip(x['c'][0])['d'] == D and x is not d]
+                # is the exit reachable from the realloc without re-deriving D?
+                rets = [e for _, e in fn.elements() if e['k'] == 'ReturnStmt'] or []
+                esc = None
+                last_el = None
+                for b_ in fn.blocks:
+                    if fn.exit in fn.succs(b_) and fn.blocks[b_]['el']:
+                        last_el = fn.blocks[b_]['el'][-1]
+                        if reaches_avoiding(fn, r, last_el, avoid=again) and not (last_el['k'] == 'ReturnStmt' and any(f[0] == 'this->' + B.split('::')[-1] and f[1] == '==' and f[2] == '0' for f in dom.facts_at(fn, last_el['i']))):
+                            esc = last_el
+                inst = '%s is derived again after %s is reallocated (%s)' % (D.split('::')[-1], B.split('::')[-1], fn.q.split('graphite2::')[-1])
+                if esc is not None and not (fn.block_of[esc['i']] == fn.block_of[r['i']] and False):
+                    run.violated(rule, inst, fn.loc(r), '%s was computed from %s (%s) before `%s`; realloc may move the block, and a path reaches the end of %s without computing %s again: it keeps pointing '
+                                 'into the old, freed block' % (D.split('::')[-1], B.split('::')[-1], fn.render(d), fn.render(r)[:60], fn.q, D.split('::')[-1]))
+                else:
+                    run.held(rule, inst, fn.loc(r), 're-derived on every path from the realloc to the exit')
+    if n < 1:
+        run.broken(rule, 'derived pointers', 'no member derived from a reallocated member buffer was found (Machine::Code::Code: _data from _code confirmed)')
+
+
 def advidx(run, fx):
     """ADVIDX: Font::advance(g) indexes the per-glyph cache m_advances[numGlyphs] unchecked.  Every call site must establish
     g < numGlyphs first: a dominating comparison of that very value with GlyphCache::numGlyphs(), or a dominating non-null test of
@@ -679,6 +724,7 @@ def run(run):
     recursion(run, fx)
     looplimit(run, fx)
     advidx(run, fx)
+    derived(run, fx)
     from . import c03, c16, c10
     try:
         c10.boxsize(run, fx)                     # the collision-box records are written within what was allocated for them (shared with C10)
